@@ -172,7 +172,7 @@ PutBegin(p, rec) ==
             /\ InHandler(r) /\ rpc[r].k = "add" /\ rpc[r].p = p /\ rpc[r].c = rec.c
             /\ StillInside(r)
             /\ G("C04", AckLive(p) => SameAlloc(rec, acked[p]))                                      \* repeated ADD: the same address
-            /\ G("C05", \A q \in Pods \ {p} : AckLiveIn(Owed, q) => ~SameAlloc(rec, Owed[q]))        \* never an address another pod was told it holds
+            /\ G("C05", \A q \in Pods \ {p} : (AckLiveIn(Owed, q) /\ ~Vanished(q)) => ~SameAlloc(rec, Owed[q]))   \* never an address another pod (still there) was told it holds
             /\ wr' = [p |-> p, rec |-> rec, by |-> "rpc"]
             /\ gcn' = [gcn EXCEPT ![p] = 0]
             /\ UNCHANGED gc
@@ -229,6 +229,7 @@ RpcRet(r, ok, code, e, a) ==
              /\ rpc[r].st # "called"                                                                 \* (I)
              /\ G("C05", rpc[r].wrec # NoRec /\ SameAlloc(rpc[r].wrec, mine))                        \* the record was written before the reply
              /\ G("C04", AckLive(p) => SameAlloc(mine, acked[p]))
+             /\ G("C04", rpc[r].wrec # NoRec /\ rpc[r].wrec.c = c)                                  \* the record names the sandbox of this (the latest successful) ADD
        /\ (k = "del" /\ ok /\ rpc[r].eff) => G("C05", rpc[r].wdel)                                   \* an acknowledged DEL is on disk
        /\ (k = "get" /\ ok /\ a # 0) =>
              G("C04", rpc[r].st # "called" /\ seen # NoRec /\ seen.c = c /\ SameAlloc(seen, mine))   \* only the current sandbox gets the allocation
@@ -275,6 +276,12 @@ GcRet(err) ==
     /\ gc' = IdleGc
     /\ UNCHANGED <<cloud, pod, disk, wr, acked, rpc, apierr, up, dbf>>
 
+(* The periodic loop (startGarbageCollectionLoop) observed after one of its passes: it must still be there, waiting *)
+(* for the next period - also when that pass failed (a pass that cannot proceed must not be the last one).          *)
+GcLoop(alive) ==
+    /\ G("C09", alive)
+    /\ UNCHANGED vars
+
 (* ---------------------------------------------------------------- observations *)
 
 (* ex: pods whose ADD failed at the database write. The address such an ADD leaves with the pool until the retry or *)
@@ -283,12 +290,16 @@ OwnersAgree(own, d, ak, ex) ==
     /\ \A x \in own : x.p \in ex \/ (x.p \in Pods /\ d[x.p] # NoRec /\ d[x.p].e = x.e /\ d[x.p].a = x.a)   \* no owner without a record
     /\ \A p \in Pods : (AckLiveIn(ak, p) /\ ~Vanished(p)) => [e |-> ak[p].e, a |-> ak[p].a, p |-> p] \in own   \* an acknowledged pod (still there) owns its address
 
+(* Two stored records never name one address: a restart replays both, whichever is replayed last owns the address. *)
+NoDupRecords(d) == \A p, q \in Pods : (p # q /\ d[p] # NoRec /\ d[q] # NoRec) => ~SameAlloc(d[p], d[q])
+
 (* Quiescent: no request, no pass, no write in progress.  own = the pool's own owner table. *)
 Obs(diskobs, memobs, own, cl) ==
     /\ up /\ wr = NoWr /\ gc.st = "idle" /\ \A r \in Rpcs : ~Open(r)                                 \* (I)
     /\ cl = cloud                                                                                    \* (I) fake and specification agree
     /\ G("C05", diskobs = disk)                                                                      \* what was acknowledged is on disk
     /\ G("C05", memobs = diskobs)                                                                    \* the mirror equals the disk
+    /\ G("C05", NoDupRecords(diskobs))
     /\ GA(OwnersAgree(own, disk, acked, dbf))
     /\ UNCHANGED vars
 
@@ -309,6 +320,7 @@ Restart(diskobs, memobs, own) ==
     /\ ~up
     /\ G("C05", diskobs \in DiskAfterKill)                                                           \* acknowledged writes are durable, the unfinished one atomic
     /\ G("C05", memobs = diskobs)
+    /\ G("C05", NoDupRecords(diskobs))
     /\ G("C05", OwnersAgree(own, diskobs, acked, {}))                                                    \* acknowledged pods own their address again, nothing else is owned
     /\ disk' = diskobs /\ wr' = NoWr /\ up' = TRUE /\ dbf' = {}
     /\ gcn' = [p \in Pods |-> 0]
@@ -321,6 +333,7 @@ Probe(diskobs, own, adds) ==
     /\ LET ak == AckedAfterKill
            n == Len(adds)
        IN /\ G("C05", diskobs \in DiskAfterKill)
+          /\ G("C05", NoDupRecords(diskobs))
           /\ G("C05", OwnersAgree(own, diskobs, ak, {}))
           /\ G("C05", \A i \in 1..n : adds[i].ok =>
                  /\ (AckLiveIn(ak, adds[i].p) => SameAlloc(adds[i], ak[adds[i].p]))                  \* same address again
